@@ -224,6 +224,28 @@ class Gen:
         P.add(TaskClass(Tn, [p0, p1], place, [Flow('W', 'READ', [Dep('in', MEM(place))])], prio=self.prio('o', 'i'), features=feats))
         return Tn
 
+    def bcast(self, NP=None, nout=None):
+        """producers P(k) with 1..3 WRITE flows, each fanned out to its own consumer class C_i(k, 0..n_i-1); the placement of
+        every producer and consumer has its OWN collection key so that a test-owned table realises any destination sets.
+        Records P.bcast = dict(producer keys, consumer keys) for the table builder."""
+        r = self.r; P = self.P
+        Pn = self.cname('P')
+        NP = NP or r.randint(2, 6); nout = nout or r.randint(1, 3)
+        k, j = V('k'), V('j')
+        pb = P.alloc_keys(NP)
+        flows = []; cons = []
+        for i in range(nout):
+            Cn = self.cname('C'); n = r.randint(1, 5)
+            cb = P.alloc_keys(NP * n)
+            flows.append(Flow('V%d' % i, 'WRITE', [Dep('out', TT(Cn, 'X', k, Rng(0, self.const(n - 1))))]))
+            cons.append((Cn, n, cb))
+        P.add(TaskClass(Pn, [Param('k', 'range', Rng(0, self.const(NP - 1)))], pb + k, flows, prio=self.prio('k')))
+        for i, (Cn, n, cb) in enumerate(cons):
+            P.add(TaskClass(Cn, [Param('k', 'range', Rng(0, self.const(NP - 1))), Param('j', 'range', Rng(0, self.const(n - 1)))], cb + k * n + j,
+                            [Flow('X', 'READ', [Dep('in', TT(Pn, 'V%d' % i, k))])], prio=self.prio('k', 'j')))
+        P.bcast = getattr(P, 'bcast', []) + [dict(producer=Pn, NP=NP, pkeys=pb, consumers=[dict(cls=c, n=n, base=b) for (c, n, b) in cons])]
+        return Pn
+
     def empty(self):
         """a class with an empty execution space (zero tasks)"""
         P = self.P
@@ -255,6 +277,7 @@ PROFILES = {
     'enum':  (dict(chain=3, fanout=3, reduce=1, wave=1, indep=3, gather=2), (1, 3)),
     'route': (dict(chain=2, fanout=4, reduce=3, wave=3, indep=0, gather=1), (1, 3)),
     'small': (dict(chain=2, fanout=2, reduce=1, wave=1, indep=1, gather=1), (1, 2)),
+    'bcast': (dict(bcast=1), (1, 2)),
     'tiny':  (dict(chain=3, fanout=1, reduce=1, wave=1, indep=1, gather=1, empty=1), (1, 1)),
 }
 
